@@ -18,6 +18,14 @@ func init() { register("steplong", &stepLongEngine{}) }
 
 func (e *stepLongEngine) leanName() string { return "nomodel" }
 
+// programs whose futures INTERACT with their creator (the creator looks at shared state while the future still runs,
+// cancels it, polls it): a stepper may not serialise them.  %d is ignored (kept for the common driver).
+var stepFuturePrograms = []string{
+	"(do (def n %d) (def p (atom 0)) (def f (future (do (sleep 80) (reset! p 1) :done))) (def seen (deref p)) [(deref f) seen (deref p)])",
+	"(do (def n %d) (def f (future (do (sleep 300) 1))) [(future-cancel f) (future-cancelled? f)])",
+	"(do (def n %d) (def f (future (do (sleep 150) :late))) [(future-done? f) (deref f) (future-done? f)])",
+}
+
 var stepLongPrograms = []string{
 	"(do (def sum (fn [n acc] (if (< n 1) acc (sum (- n 1) (+ acc n))))) (sum %d 0))",
 	"(do (def cnt (fn [n acc] (cond (< n 1) acc :else (cnt (- n 1) (+ acc 1))))) (cnt %d 0))",
@@ -40,15 +48,70 @@ func (e *stepLongEngine) generate(r *rng, n int, tier string, emit func(string))
 			}
 		}
 	}
+	for p := range stepFuturePrograms {
+		for _, script := range []string{"n", "i", "xn"} {
+			emit(fmt.Sprintf("prog=%d n=1 s=%s", 100+p, script))
+		}
+	}
+	// a debugging session that ENDS while a command is still pending (Out / Next answered on one of the last forms),
+	// then the stepper is removed and an ordinary tail loop runs in the same process: nothing of the session may linger
+	for _, pre := range []string{"", "n", "nn", "nnn", "nnnn", "nnnnn", "i", "ii", "iii", "iiii", "in", "ini", "nin"} {
+		for _, last := range []string{"o", "x", "oo", "ox"} {
+			emit("leftover s=" + pre + last)
+		}
+	}
+}
+
+const leftoverSession = "(do (def f (fn [x] (+ x 1))) (f 41))"
+const leftoverProbe = "(do (def lp (fn [n] (if (< n 1) (depth!) (do (depth!) (lp (- n 1)))))) (def lq (fn [n] (cond (< n 1) :done :else (do (depth!) (lq (- n 1)))))) (lp 30) (lq 30))"
+
+func (e *stepLongEngine) runLeftover(script string) string {
+	sess, err := parseText(leftoverSession)
+	if err != nil {
+		return "bad-case"
+	}
+	probe, err := parseText(leftoverProbe)
+	if err != nil {
+		return "bad-case"
+	}
+	if r := resultPart(runProgram(sess, -1, script, nil)); r != "ok I42" {
+		return "session " + r + "\t!the stepped session computed " + r + " instead of 42 (script " + script + ")"
+	}
+	// no stepper installed any more, and NO reset of the process-wide flags: the next evaluation is an ordinary one
+	o := runProgram(probe, -1, "-", nil)
+	marks := strings.Fields(strings.Trim(field(o, "marks"), "[]"))
+	if !strings.HasPrefix(o, "ok") || len(marks) < 60 {
+		return "probe " + resultPart(o) + "\t!a tail loop run after a finished debugging session did not complete normally: " + o[:min(len(o), 160)]
+	}
+	for i := 1; i < 30; i++ {
+		if marks[i] != marks[0] {
+			return "grows\t!after a debugging session ended (script " + script + ") a tail loop WITHOUT a stepper uses more host stack at every iteration: depth marks " + strings.Join(marks[:6], " ") + " …"
+		}
+	}
+	for i := 32; i < 61; i++ {
+		if marks[i] != marks[31] {
+			return "grows\t!after a debugging session ended (script " + script + ") a cond loop WITHOUT a stepper uses more host stack at every iteration"
+		}
+	}
+	return "ok"
 }
 
 func (e *stepLongEngine) run(payload string) string {
+	if strings.HasPrefix(payload, "leftover s=") {
+		return e.runLeftover(strings.TrimPrefix(payload, "leftover s="))
+	}
 	var p, n int
 	var script string
-	if _, err := fmt.Sscanf(payload, "prog=%d n=%d s=%s", &p, &n, &script); err != nil || p < 0 || p >= len(stepLongPrograms) {
+	if _, err := fmt.Sscanf(payload, "prog=%d n=%d s=%s", &p, &n, &script); err != nil || p < 0 || (p >= len(stepLongPrograms) && (p < 100 || p-100 >= len(stepFuturePrograms))) {
 		return "bad-case"
 	}
-	ast, err := parseText(fmt.Sprintf(stepLongPrograms[p], n))
+	src := ""
+	if p >= 100 {
+		src = stepFuturePrograms[p-100]
+	} else {
+		src = stepLongPrograms[p]
+	}
+	ast, err := parseText(fmt.Sprintf(src, n))
 	if err != nil {
 		return "bad-case"
 	}
@@ -69,3 +132,17 @@ func (e *stepLongEngine) classify(payload, obs string) string {
 
 // parseText reads lisp source with the real reader (no positions needed by the caller)
 func parseText(src string) (MalType, error) { return lisp.READ(src, nil, nil) }
+
+// engine "afterdebug" (C08): only the `leftover` cases above — a tail loop run WITHOUT a stepper, in a process where a
+// debugging session has ended, consumes no additional host stack per iteration.
+type afterDebugEngine struct{ stepLongEngine }
+
+func init() { register("afterdebug", &afterDebugEngine{}) }
+
+func (e *afterDebugEngine) generate(r *rng, n int, tier string, emit func(string)) {
+	e.stepLongEngine.generate(r, n, tier, func(p string) {
+		if strings.HasPrefix(p, "leftover ") {
+			emit(p)
+		}
+	})
+}
